@@ -83,6 +83,7 @@ func outageUnderLoad(iter int, n int) (int, int, int64, string) {
 	go func() { x.D.Shutdown(); close(done) }()
 	select {
 	case <-done:
+		e2.WaitPeerClosed(2 * time.Second)
 	case <-time.After(10 * time.Second):
 	}
 	e2.Close()
